@@ -212,6 +212,7 @@ def run():
     # the printer the renderings go through (L2 model: spec/Term.tla): context stack, marks, indentation and the terminal
     from props import _term
     _term.check(chk, t)
+    _term.check_html(chk, t)          # the same stack writing <span> elements (spec/TermHtml.tla)
     for k in (0, len(ok) // 2):
         if ok:
             chk.sample({"first": ok[k][0][0], "second": ok[k][0][1], "options": ok[k][0][2], "rendered": ok[k][1]["text"][:300]})
